@@ -19,6 +19,8 @@ structure LoopState where
   var : String
   max : Int64
   stmts : List Stmt
+  /-- the loop's own counter: the value the variable is set to at the start of the current pass -/
+  cur : Int64 := 0
   deriving Repr, Inhabited
 
 structure WhileState where
@@ -75,7 +77,7 @@ def step : It → Ctx → StepRes
         | .panic m => .panic m
       | .loop var max body =>
         match evalE max c with
-        | .ok (v, c') => .cont (.mk rest' (.startLoop ⟨var, v, body⟩)) c'
+        | .ok (v, c') => .cont (.mk rest' (.startLoop ⟨var, v, body, 0⟩)) c'
         | .err er => .err er
         | .panic m => .panic m
       | .resetRandom => .cont (.mk rest' .iterate) c.resetRandom
@@ -93,12 +95,10 @@ def step : It → Ctx → StepRes
     | .err e => .err e
     | .panic m => .panic m
   | .mk rest (.endInner ls), c =>
-    match c.get ls.var with
-    | none => .panic "called `Option::unwrap()` on a `None` value (loop variable)"
-    | some (.val prev) =>
-      if satSucc prev < ls.max then .cont (.mk rest (.startInner ls)) (c.set ls.var (satSucc prev))
-      else .cont (.mk rest .iterate) c.popFrame
-    | some _ => .panic "Expected an integer value"
+    -- the counter is the loop's own: what the body did to the variable of that name does not matter
+    if satSucc ls.cur < ls.max then
+      .cont (.mk rest (.startInner { ls with cur := satSucc ls.cur })) (c.set ls.var (satSucc ls.cur))
+    else .cont (.mk rest .iterate) c.popFrame
   | .mk rest (.startWhile ws), c =>
     match evalE ws.cond c with
     | .ok (v, c') =>
